@@ -187,7 +187,10 @@ def load_findings(prop):
         if isinstance(data, dict):
             data = data.get("findings", [])
         res += [x for x in data if x.get("property", prop) == prop]
-    return res
+    # an entry with a "fixed" key records a repaired defect ("fixed: property=<id>
+    # <commit> <what failed>"): it suppresses nothing, so the violation is reported
+    # again if it ever returns
+    return [x for x in res if "fixed" not in x]
 
 
 class Outcome:
